@@ -458,6 +458,87 @@ def r6(ctx):
                  key='blacklist-scan-complete', what='read_should_be_counted: the blacklist scan has an early exit')
 
 
+def _endswith_alt_polarity(t, pol, elem_names):
+    """(test, polarity) -> polarity of `<element>.endswith('_alt')` it asserts, or None when the test is something else"""
+    if isinstance(t, ast.UnaryOp) and isinstance(t.op, ast.Not):
+        return _endswith_alt_polarity(t.operand, not pol, elem_names)
+    if isinstance(t, ast.Call) and isinstance(t.func, ast.Attribute) and t.func.attr == 'endswith' and len(t.args) == 1 and isinstance(t.args[0], ast.Constant) and t.args[0].value == '_alt' \
+            and (names_in(t.func.value) & elem_names):
+        return pol
+    return None
+
+
+def _quantifier_of(e, fdef, depth=0):
+    """('any' | 'all', polarity of the is-alt predicate on the elements) for any(G) / all(G) / not ... over a generator whose element is
+    [not] x.endswith('_alt'); local names are looked through.  None when not of that form."""
+    if depth > 4:
+        return None
+    if isinstance(e, ast.UnaryOp) and isinstance(e.op, ast.Not):
+        q = _quantifier_of(e.operand, fdef, depth + 1)
+        return None if q is None else ({'any': 'all', 'all': 'any'}[q[0]], not q[1])
+    if isinstance(e, ast.Name):
+        defs = [s_ for s_ in walk_no_nested(fdef) if isinstance(s_, ast.Assign) and len(s_.targets) == 1 and src(s_.targets[0]) == e.id]
+        return _quantifier_of(defs[0].value, fdef, depth + 1) if len(defs) == 1 else None
+    if isinstance(e, ast.Call) and isinstance(e.func, ast.Name) and e.func.id in ('any', 'all') and len(e.args) == 1 and isinstance(e.args[0], (ast.GeneratorExp, ast.ListComp)):
+        g = e.args[0]
+        if len(g.generators) != 1 or g.generators[0].ifs:
+            return None
+        elem = {n.id for n in ast.walk(g.generators[0].target) if isinstance(n, ast.Name)}
+        pol = _endswith_alt_polarity(g.elt, True, elem)
+        return None if pol is None else (e.func.id, pol)
+    return None
+
+
+@rule('C11', 'C11-R7', 'the alternative-hit filter (--filterXA) answers "some alternative hit lies on a contig that is not an _alt contig": an existential '
+                       'over the XA hits, decided on the quantifier structure of the function however it is written (loop with early return, any / all)')
+def r7(ctx):
+    f = ctx.fn(COUNTTABLE, 'read_has_alternative_hits_to_non_alts')
+    verdicts = []          # (quantifier, is-alt polarity) per way the function computes a non-trivial answer
+    undecided = None
+    # (1) loops with an early constant return decided by the element test, followed by the opposite constant
+    for l in [x for x in walk_no_nested(f) if isinstance(x, ast.For)]:
+        elem = {n.id for n in ast.walk(l.target) if isinstance(n, ast.Name)}
+        for s_ in walk_no_nested(l):
+            if isinstance(s_, ast.Assign) and names_in(s_.value) & elem:
+                elem |= {n.id for t_ in s_.targets for n in ast.walk(t_) if isinstance(n, ast.Name)}
+        for r_ in [x for x in walk_no_nested(l) if isinstance(x, ast.Return)]:
+            if not (isinstance(r_.value, ast.Constant) and isinstance(r_.value.value, bool)):
+                undecided = f'early return of `{src(r_.value) if r_.value is not None else None}` inside the hit loop'
+                continue
+            pols = [p_ for p_ in (_endswith_alt_polarity(t_, pol, elem) for t_, pol in (reach_conds(l.body, r_) or [])) if p_ is not None]
+            if len(pols) != 1:
+                undecided = 'early return in the hit loop is not decided by one `_alt` test'
+                continue
+            # the value returned when no element triggers the early return: the last return of the function
+            tail = [x for x in f.body if isinstance(x, ast.Return)]
+            if not tail or not isinstance(tail[-1].value, ast.Constant) or tail[-1].value.value is r_.value.value:
+                undecided = 'fall-through value of the hit loop not understood'
+                continue
+            verdicts.append(('any', pols[0]) if r_.value.value is True else ('all', not pols[0]))
+    # (2) returns of a quantified expression
+    for r_ in [x for x in walk_no_nested(f) if isinstance(x, ast.Return) and x.value is not None and not isinstance(x.value, ast.Constant)]:
+        q = _quantifier_of(r_.value, f)
+        if q is None:
+            undecided = f'return value `{src(r_.value)[:60]}` is not a quantifier over the hits'
+        else:
+            verdicts.append(q)
+    # (3) constant answers outside loops must be False (no tag / no hit -> no alternative hit)
+    const_true = [x for x in walk_no_nested(f) if isinstance(x, ast.Return) and isinstance(x.value, ast.Constant) and x.value.value is True
+                  and not any(any(y is x for y in walk_no_nested(l)) for l in walk_no_nested(f) if isinstance(l, ast.For))]
+    if undecided and not verdicts:
+        ctx.emit('C11-R7', False, COUNTTABLE, f, f'alternative-hit filter not understood: {undecided}', key='xa-filter-quantifier', undecided=True)
+        return
+    ok = bool(verdicts) and all(v == ('any', False) for v in verdicts) and not const_true and not undecided
+    ctx.emit('C11-R7', ok, COUNTTABLE, f, 'the filter answers: some XA hit is on a contig that does not end with _alt' if ok else
+             f'the filter computes {["%s hit %s on an _alt contig" % ("some" if q == "any" else "every", "is" if p_ else "is not") for q, p_ in verdicts]} instead of "some hit is not on an _alt contig"'
+             + (f'; {undecided}' if undecided else '') + ('; a constant True answer outside the hit loop' if const_true else ''), key='xa-filter-quantifier',
+             what='read_has_alternative_hits_to_non_alts: the quantifier over the XA hits is wrong (reads with mixed _alt / regular hits are kept)')
+    # the hits are the ;-separated entries of the XA tag, the contig is their first ,-separated field
+    txt = src(f)
+    okp = "get_tag('XA')" in txt and ".split(';')" in txt and ".split(',')" in txt
+    ctx.emit('C11-R7', okp, COUNTTABLE, f, 'hits are the ;-separated XA entries, the contig their first field', key='xa-filter-parsing', nontrivial=False)
+
+
 META = {
     'text': ('Decides: every filter option of the parser is consulted by read_should_be_counted and can only reject (single trailing return True); '
              'each filter test equals its documented predicate on every case (mate selection, MAPQ <, proper pairs, indels, soft clips, edit distance '
